@@ -291,17 +291,36 @@ def generic(ck, prog, fld, d, irr, p, base, ref_frob):
                 return False, f"inv returns its argument unchanged on a path that only establishes coordinates {sorted(zeroed)} to be zero: a non-zero element has no inverse there"
         if len(it.inv_calls) < 1:
             return False, "no base-field inversion on the computing path"
-        n, name = it.inv_calls[0]
+
+        def zero_vars(cs):
+            """coordinates of x that the path's decisions established to be zero (a fast path for base-field elements: `self.1 == ZERO`)"""
+            zs = set()
+            for polys, allzero in cs:
+                if allzero:
+                    for q in polys:
+                        for i in range(d):
+                            if (q - x[i]).is_zero():
+                                zs |= x[i].vars()
+            return zs
+
+        def drop(q, zs):
+            return Poly({m: c for m, c in q.t.items() if not any(v in zs for v, _ in m)}, q.p) if zs else q
         for cs, v in main:
+            zs = zero_vars(cs)
+            used = [(n_, name_) for n_, name_ in it.inv_calls if any(name_ in q.vars() for q in v)]
+            if len(used) != 1:
+                return False, f"a computing path uses {len(used)} base-field inversions in its result (expected exactly one)"
+            n, name = used[0]
             N = []
             for q in v:
                 co, rest = q.coeff_of(name)
-                if not rest.is_zero():
+                if not drop(rest, zs).is_zero():
                     return False, f"a result coordinate is not a multiple of the inverted norm: {q.show()}"
-                N.append(co)
-            prod = schoolbook(x, N, irr, p)
-            if not same(prod, [n] + [zero] * (d - 1)):
-                return False, f"x * numerator = {showv(prod)} but the inverted value is {n.show()}"
+                N.append(drop(co, zs))
+            xs = [drop(q, zs) for q in x]
+            prod = schoolbook(xs, N, irr, p)
+            if not same(prod, [drop(n, zs)] + [zero] * (d - 1)):
+                return False, f"x * numerator = {showv(prod)} but the inverted value is {drop(n, zs).show()}" + (f" (on the path where {sorted(zs)} are zero)" if zs else "")
         return True, None
     check(ck, "G", f"{tag}:inv", f, t_inv,
           f"{tag}: inv(x) returns x unchanged only when every coordinate is zero; otherwise N * n^-1 with x * N == (n,0,..) identically")
